@@ -257,6 +257,11 @@ def run_unit(unit, repo='/repo', tier='quick', rlimit=30, seed=None, canaries=Tr
             if o['obligation'] not in seen:
                 seen.add(o['obligation'])
                 res.failures.append(o)
+    for (fn, name, ok, detail, props, src) in g.syntactic:
+        if not ok:
+            res.failures.append({'obligation': '%s/%s/%s' % (unit, fn, name), 'unit': unit, 'fn': fn, 'kind': 'census',
+                                 'props': props, 'message': 'syntactic census failed: ' + detail, 'rendered': detail,
+                                 'src': src, 'gen_line': 0})
     if rc == 124:
         res.trouble.append('verus timeout')
     if rc != 0 and not res.failures and not res.trouble:
